@@ -347,6 +347,21 @@ NameClashFree ==
 
 Changed(a, b) == [a EXCEPT !.out = "ok"] # [b EXCEPT !.out = "ok"]
 
+\* algebra of the container: an accepted add followed by the delete of the same object restores the container exactly
+\* (not for a sticky note -- there is no delete for it -- nor for a project that replaced another one), and an accepted
+\* delete of a table or enum followed by the add of the same object is accepted again
+AddThenDeleteRestores ==
+  \A o \in Tables \cup Refs \cup Enums \cup Groups \cup Projects :
+     LET a == AddAny(s, o) IN
+     (a.out = "ok" /\ ~(o \in Projects /\ s.project # None)) =>
+        LET d == DeleteAny(a, o) IN d.out = "ok" /\ ~Changed(d, s)
+\* (tables and enums only: a reference is re-admitted only while both its tables are still contained -- TLC refuted the
+\* law for references in the state reached by deleting a table under a reference)
+DeleteThenAddReadmits ==
+  \A o \in Tables \cup Enums :
+     LET d == DeleteAny(s, o) IN
+     d.out = "ok" => AddAny(d, o).out = "ok"
+
 \* a rejected call leaves everything exactly as it was
 RejectedIsNoop == [][s'.out # "ok" => ~Changed(s, s')]_vars
 
